@@ -571,3 +571,103 @@ Proof.
 Qed.
 
 End JointSum.
+
+Section JointMain.
+Context {T : Type}.
+Variable zero : T.
+Variable add : T -> T -> T.
+Hypothesis add_0_r : forall x, add x zero = x.
+Notation tsum := (tsum zero add).
+Notation comp_sum := (comp_sum zero add).
+Notation joint_spec := (joint_spec zero add).
+Notation joint_term := (joint_term zero add).
+Notation joint_log_prob := (joint_log_prob zero add).
+Notation tS := (term_S zero add).
+Notation t1 := (term_1 zero add).
+
+Definition term_ok (S : nat) (c : tcomp T) (t : tensor T) : Prop :=
+  t = tS S c \/ (tc_batched c = false /\ t = t1 S c).
+
+Lemma joint_J_cases S (cs : list (tcomp T)) :
+  forallb (rep_ok S) cs = true -> joint_J cs = [] \/ joint_J cs = [S].
+Proof.
+  intros H. unfold joint_J. destruct cs as [|c cs']; [now left|].
+  rewrite (longest_common [S]); [destruct (existsb nonempty _); auto|discriminate|discriminate|].
+  apply Forall_forall. intros s Hs. apply in_map_iff in Hs. destruct Hs as (c' & <- & Hin).
+  rewrite forallb_forall in H. specialize (H c' Hin). unfold rep_ok in H.
+  apply orb_true_iff in H. destruct H as [H|H]; apply shape_eqb_eq in H; auto.
+Qed.
+
+Lemma mapM_terms S J (cs : list (tcomp T)) :
+  0 < S -> Forall (wf_tc S) cs -> forallb (rep_ok S) cs = true -> ambiguous S cs = false ->
+  (J = [] \/ J = [S]) ->
+  exists ts, mapM (joint_term J) (map (tc_comp S) cs) = Some ts /\ Forall2 (term_ok S) cs ts.
+Proof.
+  intros HS Hwf Hrep Hamb HJ. induction cs as [|c cs IH].
+  - exists []. split; [reflexivity|constructor].
+  - inversion Hwf as [|? ? Hw Hws]; subst. cbn [forallb] in Hrep. apply andb_true_iff in Hrep. destruct Hrep as [Hr Hrs].
+    unfold ambiguous in Hamb. cbn [existsb] in Hamb. apply orb_false_iff in Hamb. destruct Hamb as [Ha Has].
+    destruct (IH Hws Hrs Has) as (ts & E & F).
+    cbn [map mapM].
+    destruct (joint_term_typed zero add add_0_r S J c HS Hw Hr Ha HJ) as [E1|[Hb E1]]; rewrite E1; cbn [obind]; rewrite E; cbn [obind].
+    + exists (tS S c :: ts). split; [reflexivity|]. constructor; [now left|assumption].
+    + exists (t1 S c :: ts). split; [reflexivity|]. constructor; [now right|assumption].
+Qed.
+
+Lemma classify_S S cs ts : Forall2 (term_ok S) cs ts -> ts = map (tS S) cs \/ existsb (@is_1 T) ts = true.
+Proof.
+  induction 1 as [|c t cs ts H _ IH]; [now left|].
+  destruct H as [->|[_ ->]].
+  - destruct IH as [->|IH]; [now left|right]. cbn [existsb]. rewrite IH. apply orb_true_r.
+  - right. reflexivity.
+Qed.
+
+Lemma classify_1 S cs ts : Forall2 (term_ok S) cs ts ->
+  (ts = map (t1 S) cs /\ Forall (fun c => tc_batched c = false) cs) \/ existsb (@is_S T S) ts = true.
+Proof.
+  induction 1 as [|c t cs ts H _ IH]; [left; split; [reflexivity|constructor]|].
+  destruct H as [->|[Hb ->]].
+  - right. cbn [existsb]. unfold is_S at 1. cbn [term_S tshape]. now rewrite shape_eqb_refl.
+  - destruct IH as [[-> Hall]|IH].
+    + left. split; [reflexivity|now constructor].
+    + right. cbn [existsb]. rewrite IH. apply orb_true_r.
+Qed.
+
+Theorem joint_no_mixing_l S (cs : list (tcomp T)) (dflt : T) :
+  0 < S -> Forall (wf_tc S) cs -> forallb (rep_ok S) cs = true -> ambiguous S cs = false ->
+  joint_log_prob (joint_J cs) (map (tc_comp S) cs) = None \/
+  exists R, joint_log_prob (joint_J cs) (map (tc_comp S) cs) = Some R /\
+            (tshape R = [S] \/ tshape R = []) /\
+            forall s, s < S -> value_at dflt R s = joint_spec S s cs.
+Proof.
+  intros HS Hwf Hrep Hamb.
+  destruct (mapM_terms S (joint_J cs) cs HS Hwf Hrep Hamb (joint_J_cases S cs Hrep)) as (ts & E & F).
+  unfold M_tensor.joint_log_prob. rewrite E. cbn [obind].
+  destruct F as [|c0 t0 cs' ts' H0 F'].
+  - left. reflexivity.
+  - assert (F : Forall2 (term_ok S) (c0 :: cs') (t0 :: ts')) by now constructor.
+    destruct H0 as [->|[Hb ->]].
+    + destruct (classify_S S _ _ F) as [Ets|Hex].
+      * right. rewrite Ets. rewrite (cat_sum_S zero add S (c0 :: cs')) by discriminate.
+        eexists. split; [reflexivity|]. split; [now left|].
+        intros s Hs. unfold value_at. cbn [tshape tdata].
+        rewrite (nth_indep _ dflt (joint_spec S 0 (c0 :: cs'))) by now rewrite map_length, seq_length.
+        rewrite (map_nth (fun s => joint_spec S s (c0 :: cs')) (seq 0 S) 0 s).
+        now rewrite seq_nth.
+      * left. cbn [existsb] in Hex. change (is_1 (tS S c0)) with (shape_eqb [S; 1] [1]) in Hex.
+        replace (shape_eqb [S; 1] [1]) with false in Hex
+          by (unfold shape_eqb; cbn [list_eqb]; now rewrite andb_false_r).
+        cbn [orb] in Hex. now rewrite (cat_mixed_S S (tS S c0) ts' eq_refl Hex).
+    + destruct (classify_1 S _ _ F) as [[Ets Hall]|Hex].
+      * right. rewrite Ets. rewrite (cat_sum_1 zero add S (c0 :: cs')) by discriminate.
+        eexists. split; [reflexivity|]. split; [now right|].
+        intros s Hs. unfold value_at. cbn [tshape tdata nth]. unfold M_tensor.joint_spec. f_equal.
+        apply map_ext_in. intros c Hc. rewrite Forall_forall in Hall. specialize (Hall c Hc).
+        unfold M_tensor.comp_sum. now rewrite Hall.
+      * left. cbn [existsb] in Hex. change (is_S S (t1 S c0)) with (shape_eqb [1] [S; 1]) in Hex.
+        replace (shape_eqb [1] [S; 1]) with false in Hex
+          by (unfold shape_eqb; cbn [list_eqb]; now rewrite andb_false_r).
+        cbn [orb] in Hex. now rewrite (cat_mixed_1 S (t1 S c0) ts' eq_refl Hex).
+Qed.
+
+End JointMain.
